@@ -1,15 +1,187 @@
-"""C14, trxcon leg: no datagram on trxcon's control or data socket makes trx_if.c crash
-or touch memory out of bounds (ASan/UBSan driver around the real, unmodified file)."""
+"""C14, trxcon leg: no datagram arriving on trxcon's control or data socket makes its
+transceiver interface crash or touch memory out of bounds.
+
+The tree's src/host/trxcon/src/trx_if.c is compiled unmodified (ASan + UBSan) behind
+csrc/drv_trxcon.c.  Exhaustive fault enumeration: for every command type trxcon
+can emit, the command is issued on a fresh trx instance and every entry of a
+response mutation catalogue (every truncation of the valid reply, header octets ->
+{00,7F,80,FF}, verb only, no status, non-numeric / negative / huge status, MEASURE
+without results, over-long, empty, foreign verbs, reply without a pending command,
+duplicate reply) is fed to the real trx_ctrl_read_cb, followed by a valid reply, a
+timer expiry and a state query; every datagram length 0..520 with three fill
+patterns, all version nibbles, frame numbers beyond the hyperframe and header
+octet faults go to the real trx_data_rx_cb.  Oracle: the process survives, no
+sanitizer report; the interface either continues or terminates cleanly.
+"""
+import os
+
+from vlib import cbuild
+from vlib import trxcon_drv
+
+OCT = [0x00, 0x7f, 0x80, 0xff]
+CMDS = ["RESET", "POWERON", "POWEROFF", "MEASURE 1", "SETFREQ_H0 1", "SETFREQ_H1 5 1 3 1 2 3", "SETSLOT 1 TCH_F", "SETTA 3"]
+
+
+def valid_reply(cmd):
+    """cmd: bytes 'CMD VERB args\\0' -> the reply a transceiver would send"""
+    body = cmd.rstrip(b"\0")
+    toks = body.split(b" ")
+    verb, args = toks[1], toks[2:]
+    r = b"RSP " + verb + b" 0"
+    if args:
+        r += b" " + b" ".join(args)
+    if verb == b"MEASURE":
+        r += b" -60"
+    return r + b"\0", verb
+
+
+def rsp_mutants(reply, verb):
+    out = []
+    for n in range(len(reply)):
+        out.append(("trunc%d" % n, reply[:n]))
+    for pos in range(min(8, len(reply))):
+        for o in OCT:
+            out.append(("oct%d=%02x" % (pos, o), reply[:pos] + bytes([o]) + reply[pos + 1:]))
+    v = verb
+    fixed = [("RSP", b"RSP"), ("RSPsp", b"RSP "), ("RSPnul", b"RSP\0"), ("verb-only", b"RSP " + v), ("verb-only-nul", b"RSP " + v + b"\0"),
+             ("verb-sp", b"RSP " + v + b" "), ("verb-sp-nul", b"RSP " + v + b" \0"), ("status-abc", b"RSP " + v + b" abc\0"),
+             ("status-neg", b"RSP " + v + b" -1\0"), ("status-huge", b"RSP " + v + b" 99999999999999999999\0"),
+             ("status-one", b"RSP " + v + b" 1\0"), ("status-only", b"RSP " + v + b" 0\0"), ("status-nonul", b"RSP " + v + b" 0"),
+             ("verb-prefix", b"RSP " + v[:3] + b" 0\0"), ("verb-longer", b"RSP " + v + b"X 0\0"), ("lower", b"rsp " + v.lower() + b" 0\0"),
+             ("other-verb", b"RSP ECHO 0\0" if v != b"ECHO" else b"RSP POWERON 0\0"), ("ind", b"IND CLOCK 5\0"), ("cmd", b"CMD " + v + b"\0"),
+             ("empty", b""), ("nul", b"\0"), ("nuls", bytes(16)), ("ff", b"\xff" * 16),
+             ("long1022", (b"RSP " + v + b" 0 " + b"7" * 1100)[:1022]), ("long1023", (b"RSP " + v + b" 0 " + b"7" * 1100)[:1023]),
+             ("long1024", (b"RSP " + v + b" 0 " + b"7" * 1100)[:1024]), ("long2000", (b"RSP " + v + b" 0 " + b"7" * 2100)[:2000]),
+             ("longverb", b"RSP " + b"V" * 1500), ("meas-noresult", b"RSP MEASURE 0\0"), ("meas-onearg", b"RSP MEASURE 0 935200\0"),
+             ("meas-abc", b"RSP MEASURE 0 abc def\0"), ("meas-zero", b"RSP MEASURE 0 0 0\0"), ("meas-huge", b"RSP MEASURE 0 4294967295 2147483648\0"),
+             ("meas-short", b"RSP MEASURE 0 9\0"), ("meas-13", b"RSP MEASURE 0"), ("meas-14", b"RSP MEASURE 0 ")]
+    return out + fixed
+
+
+def data_mutants():
+    out = []
+    for n in range(0, 521):
+        for name, fill in (("z", 0x00), ("f", 0xff), ("p", None)):
+            b = bytes((i * 37 + 11) & 0xff for i in range(n)) if fill is None else bytes([fill]) * n
+            out.append(("len%d%s" % (n, name), b))
+    base = bytes([3]) + (1234).to_bytes(4, "big") + bytes([60, 0, 5]) + bytes(127 for _ in range(148))
+    for nib in range(16):
+        for ln in (8, 156, 158, 452, 454, 512):
+            b = (bytes([(nib << 4) | 3]) + base[1:] + bytes(400))[:ln]
+            out.append(("ver%d/%d" % (nib, ln), b))
+    for fn in (2715647, 2715648, 0x7fffffff, 0x80000000, 0xffffffff):
+        out.append(("fn%x" % fn, base[:1] + fn.to_bytes(4, "big") + base[5:]))
+        out.append(("fn%x+pad" % fn, base[:1] + fn.to_bytes(4, "big") + base[5:] + b"\0\0"))
+    for pos in range(8):
+        for o in OCT:
+            out.append(("oct%d=%02x" % (pos, o), base[:pos] + bytes([o]) + base[pos + 1:]))
+    return out
+
+
+def family(name):
+    return name.rstrip("0123456789").split("=")[0].split("/")[0]
+
+
+def _ctrl_cases(exe):
+    d = trxcon_drv.Driver(exe)
+    learned = d.cases([["fresh", "cmd " + c] for c in CMDS])
+    cases, meta = [], []
+    for c, res in zip(CMDS, learned):
+        r = res[1]
+        if r.get("died") or not r.get("sent"):
+            meta.append((c, None, None, "cmd"))
+            cases.append(["fresh", "cmd " + c, "state"])
+            continue
+        cmd = bytes.fromhex(r["sent"][0])
+        reply, verb = valid_reply(cmd)
+        for name, m in rsp_mutants(reply, verb):
+            cases.append(["fresh", "cmd " + c, "rsp " + (m.hex() or "-"), "state", "rsp " + reply.hex(), "timeout", "state"])
+            meta.append((c, name, m, "rsp"))
+        # without any pending command, and a duplicate of the valid reply
+        cases.append(["fresh", "rsp " + reply.hex(), "state", "timeout"])
+        meta.append((c, "no-pending", reply, "rsp0"))
+        cases.append(["fresh", "cmd " + c, "rsp " + reply.hex(), "rsp " + reply.hex(), "state", "timeout", "rsp " + reply.hex()])
+        meta.append((c, "duplicate", reply, "rspdup"))
+    return cases, meta
 
 
 def run(ctx):
+    c = ctx.cov
+    b = cbuild.builddir("c14trx")
     try:
-        from vlib import trxcon_drv  # noqa
-    except ImportError:
-        ctx.cov["trxcon_leg"] = "driver not available"
-        return
-    ctx.cov["trxcon_leg"] = "not wired yet"
+        exe = trxcon_drv.build(b)
+        cases, meta = _ctrl_cases(exe)
+        n = ctx.nproc
+        chunks = [(exe, cases[i::n]) for i in range(n)]
+        results = [None] * len(cases)
+        for k, res in enumerate(ctx.pmap(_run_cases, chunks)):
+            for j, r in enumerate(res):
+                results[k + j * n] = r
+        outcomes = {}
+        deaths = 0
+        for idx, ((cmd, name, m, kind), res) in enumerate(zip(meta, results)):
+            died = [x for x in res if x.get("died")]
+            oc = "died" if died else ("terminated" if any(x.get("terminated") for x in res) else
+                                      ("accepted" if any(x.get("dequeued") for x in res[:3]) else "ignored"))
+            outcomes[oc] = outcomes.get(oc, 0) + 1
+            if died:
+                deaths += 1
+                x = died[0]
+                ctx.violation("C14:trxcon:ctrl:%s:%s" % (family(name or "cmd"), x.get("how")),
+                              {"leg": "trxcon", "kind": "ctrl", "cmd": cmd, "mutant": name, "lines": cases[idx]},
+                              "trxcon control socket: after 'cmd %s' the datagram %r (%s) kills trx_if.c: %s"
+                              % (cmd, (m or b"")[:40], name, x.get("report", "")[:400]))
+        c["trxcon_ctrl_cases"] = len(cases)
+        c["trxcon_ctrl_outcomes"] = outcomes
+        # data socket
+        dm = data_mutants()
+        dchunks = [(exe, dm[i::n]) for i in range(n)]
+        dres = [None] * len(dm)
+        for k, res in enumerate(ctx.pmap(_run_data, dchunks)):
+            for j, r in enumerate(res):
+                dres[k + j * n] = r
+        douts = {}
+        for (name, p), r in zip(dm, dres):
+            oc = "died" if r.get("died") else ("indication" if r.get("ind") else "rejected rc=%s" % r.get("rc"))
+            douts[oc] = douts.get(oc, 0) + 1
+            if r.get("died"):
+                deaths += 1
+                ctx.violation("C14:trxcon:data:%s:%s" % (family(name), r.get("how")),
+                              {"leg": "trxcon", "kind": "data", "mutant": name, "lines": ["fresh", "rxdata " + (p.hex() or "-")]},
+                              "trxcon data socket: datagram %s (%d octets) kills trx_if.c: %s" % (name, len(p), r.get("report", "")[:400]))
+        c["trxcon_data_cases"] = len(dm)
+        c["trxcon_data_outcomes"] = douts
+        c["trxcon_deaths"] = deaths
+        c["trxcon_leg"] = "ran"
+        c["evaluations"] = c.get("evaluations", 0) + len(cases) + len(dm)
+        c["mutants"] = c.get("mutants", 0) + len(cases) + len(dm)
+        ctx.sample({"trxcon_case": cases[len(cases) // 3]})
+        ctx.assumptions += ["trxcon leg: trx_if.c compiled unmodified against the repo's trxcon headers and the tree's embedded libosmocore; "
+                            "fsm/socket/select of the system libosmocore replaced by a ~300-line stand-in; AF_UNIX datagram socketpairs"]
+    finally:
+        cbuild.cleanup(b)
+
+
+def _run_cases(arg):
+    exe, cases = arg
+    return trxcon_drv.Driver(exe).cases(cases)
+
+
+def _run_data(arg):
+    exe, muts = arg
+    d = trxcon_drv.Driver(exe)
+    return d.batch(["rxdata " + (p.hex() or "-") for _, p in muts])
 
 
 def replay(ctx, case):
-    pass
+    b = cbuild.builddir("c14trxr")
+    try:
+        exe = trxcon_drv.build(b)
+        res = trxcon_drv.Driver(exe).cases([case["lines"]])[0]
+        for x in res:
+            if x.get("died"):
+                ctx.violation("C14:trxcon:%s:%s:%s" % (case["kind"], family(case.get("mutant") or "cmd"), x.get("how")), case,
+                              "driver died: %s" % x.get("report", "")[:400])
+                break
+    finally:
+        cbuild.cleanup(b)
